@@ -30,7 +30,7 @@ ASSUMPTIONS = [
     "exactly as in a list'; __setitem__ documents key as 'either the mnemonic or the index')",
 ]
 
-NAMES = ["A", "a", "b", "", "1", "A:1", "GR"]
+NAMES = ["A", "a", "b", "", "1", "A:1", "GR", "_S"]
 PLAIN = "plain value"
 
 _STATES = {}
